@@ -178,6 +178,7 @@ func run(c *vf.Ctx) {
 	sem := make(chan struct{}, maxParallel)
 	var wg sync.WaitGroup
 	var jmu sync.Mutex
+	var maxStream int64
 	expected := 0
 	for _, j := range jobs {
 		expected += len(j.Cases)
@@ -226,8 +227,9 @@ func run(c *vf.Ctx) {
 						tx += a
 					}
 					c.Count("transactions_committed", tx)
-					if rec.J.StreamLen > 0 {
-						c.Extra("stream_len_bytes_max", rec.J.StreamLen)
+					if rec.J.StreamLen > maxStream {
+						maxStream = rec.J.StreamLen
+						c.Extra("stream_len_bytes_max", maxStream)
 					}
 				}
 			}
